@@ -31,6 +31,7 @@ OP_BOOLAND, OP_BOOLOR, OP_NUMEQUAL, OP_NUMEQUALVERIFY, OP_NUMNOTEQUAL, OP_LESSTH
 OP_RIPEMD160, OP_SHA1, OP_SHA256, OP_HASH160, OP_HASH256, OP_CODESEPARATOR, OP_CHECKSIG, OP_CHECKSIGVERIFY, OP_CHECKMULTISIG, OP_CHECKMULTISIGVERIFY = range(0xA6, 0xB0)
 OP_NOP1, OP_CHECKLOCKTIMEVERIFY, OP_CHECKSEQUENCEVERIFY, OP_NOP4 = 0xB0, 0xB1, 0xB2, 0xB3
 OP_NOP10 = 0xB9
+OP_CHECKSIGADD = 0xBA
 DISABLED = {OP_CAT, OP_SUBSTR, OP_LEFT, OP_RIGHT, OP_INVERT, OP_AND, OP_OR, OP_XOR, OP_2MUL, OP_2DIV, OP_MUL, OP_DIV, OP_MOD, OP_LSHIFT, OP_RSHIFT}
 SIG_OPS = {OP_CHECKSIG, OP_CHECKSIGVERIFY, OP_CHECKMULTISIG, OP_CHECKMULTISIGVERIFY}
 
@@ -167,11 +168,12 @@ def _csv(stack, tx_version, tx_in_sequence, require_minimal):
 
 
 def eval_script(stack, script, *, minimaldata=False, minimalif=False, discourage_nops=False, cltv=True, csv=True,
-                witness_v0=False, hashes=None, tx_lock_time=0, tx_in_sequence=0xFFFFFFFF, tx_version=2):
+                witness_v0=False, hashes=None, tx_lock_time=0, tx_in_sequence=0xFFFFFFFF, tx_version=2, tapscript=False):
     """Run `script` (concrete bytes) on `stack` (list, mutated). Raises ScriptErr on failure."""
-    if any(op in SIG_OPS for op in _opcodes(script)):
+    unmodelled = (OP_CHECKSIG, OP_CHECKSIGVERIFY, OP_CHECKSIGADD) if tapscript else SIG_OPS   # tapscript: CHECKMULTISIG* is a plain failure when executed
+    if any(op in unmodelled for op in _opcodes(script)):
         raise NotImplementedError("signature opcodes are outside this reference")
-    if len(script) > MAX_SCRIPT_SIZE:
+    if not tapscript and len(script) > MAX_SCRIPT_SIZE:
         _fail("script size")
     altstack = []
     vf_exec = []
@@ -182,7 +184,7 @@ def eval_script(stack, script, *, minimaldata=False, minimalif=False, discourage
         opcode, data, pc = get_op(script, pc)
         if data is not None and len(data) > MAX_SCRIPT_ELEMENT_SIZE:
             _fail("push size")
-        if opcode > OP_16:
+        if opcode > OP_16 and not tapscript:
             op_count += 1
             if op_count > MAX_OPS_PER_SCRIPT:
                 _fail("op count")
@@ -212,7 +214,7 @@ def eval_script(stack, script, *, minimaldata=False, minimalif=False, discourage
                     if len(stack) < 1:
                         _fail("unbalanced conditional")
                     vch = stack[-1]
-                    if witness_v0 and minimalif:
+                    if tapscript or (witness_v0 and minimalif):
                         if len(vch) > 1:
                             _fail("minimalif")
                         if len(vch) == 1 and vch[0] != 1:
@@ -435,6 +437,34 @@ def _opcodes(script):
     except ScriptErr:
         pass
     return out
+
+
+# ------------------------------------------------------------------ ExecuteWitnessScript, SigVersion::TAPSCRIPT
+def is_op_success(opcode):
+    return (opcode == 80 or opcode == 98 or 126 <= opcode <= 129 or 131 <= opcode <= 134 or 137 <= opcode <= 138
+            or 141 <= opcode <= 142 or 149 <= opcode <= 153 or 187 <= opcode <= 254)
+
+
+def execute_tapscript(stack, script, *, discourage_op_success=False, **evkw):
+    """BIP342 / Core's VerifyWitnessProgram tapscript arm after the commitment check: the OP_SUCCESSx pre-scan, the
+    initial stack limits, EvalScript under SigVersion::TAPSCRIPT and the final exactly-one-true-element rule."""
+    pc = 0
+    while pc < len(script):
+        opcode, data, pc = get_op(script, pc)      # a truncated push before any OP_SUCCESSx: SCRIPT_ERR_BAD_OPCODE
+        if is_op_success(opcode):
+            if discourage_op_success:
+                _fail("discourage op_success")
+            return
+    if len(stack) > MAX_STACK_SIZE:
+        _fail("stack size")
+    for elem in stack:
+        if len(elem) > MAX_SCRIPT_ELEMENT_SIZE:
+            _fail("push size")
+    eval_script(stack, script, tapscript=True, **evkw)
+    if len(stack) != 1:
+        _fail("cleanstack")
+    if not cast_to_bool(stack[-1]):
+        _fail("eval false")
 
 
 # ------------------------------------------------------------------ VerifyScript / VerifyWitnessProgram (signature-free scripts)
